@@ -188,3 +188,29 @@ fn contains_n(maxn: usize, pool: u8, maxlen: u8) {
 fn contains_type_path_n1() {
     contains_n(1, 2, 1);
 }
+
+// BOUNDED (concrete catalogue, no symbolic data): the UNMODIFIED registry_contains_type_path on one fixed
+// registry {a::b, c} against 7 fixed queries that separate exact equality from prefix / suffix / last-segment /
+// length-only comparisons.  A stand-in for the cases where the Verus unit loses its anchor.
+#[kani::proof]
+#[kani::unwind(9)]
+fn contains_type_path_catalogue() {
+    let reg = PortableRegistry { types: vec![
+        PortableType { id: 0, ty: prim_ty(vec!["a".to_string(), "b".to_string()]) },
+        PortableType { id: 1, ty: prim_ty(vec!["c".to_string()]) },
+    ] };
+    let q = |v: &[&str]| -> Vec<String> { v.iter().map(|s| s.to_string()).collect() };
+    let cases: [(Vec<String>, bool); 7] = [
+        (q(&["a", "b"]), true), (q(&["c"]), true), (q(&["b"]), false), (q(&["a"]), false),
+        (q(&["x", "a", "b"]), false), (q(&["a", "c"]), false), (q(&[]), false),
+    ];
+    let mut i = 0;
+    while i < 7 {
+        let got = registry_contains_type_path(&reg, &cases[i].0);
+        assert!(got == cases[i].1, "registry_contains_type_path <=> some registry type has exactly this path");
+        i += 1;
+    }
+    kani::cover!(true, "catalogue executed");
+    core::mem::forget(reg);
+    core::mem::forget(cases);
+}
